@@ -212,6 +212,8 @@ def _legC_one(args):
         invs = ["T_WF", "T_C01_Cap", "T_C01_Occupancy", "T_C01_NoBreakdown", "T_C02_Backed", "T_C02_ReadyInside", "T_C02_NoBreakdown"]
         props = ["T_TimeMonotone", "T_C01_PutHonoured", "T_C02_GetFresh", "T_C02_GetHonoured", "T_C02_NoInvent", "T_C05_GrantOrder",
                  "T_C07_Reject", "T_C07_Accept"]
+        if "slotted" in fname:
+            invs += ["T_C04_Put", "T_C04_Get"]      # the slotted belt store is a StoreCore kind: wake-ups are judged too
     else:
         for k, (i, p) in tracecheck.T_STORE.items():
             invs += i
